@@ -88,6 +88,8 @@ type c12s struct {
 	native    map[int]int // id label -> code label it was born under (issue) ; cat-1: code -> code
 	ids       []int       // ids produced by included issue txs
 	prev      *c12View
+	taint     map[int]bool // code labels involved in a replenish under an id that is not theirs
+	taintID   map[int]bool
 	nUsers    int
 	stop      bool
 }
@@ -420,6 +422,33 @@ func (s *c12s) diagnose(header *types.Header, prefix types.Transactions, tx *typ
 	})
 }
 
+// waitIndex: EVM.TransferAssetTx finds an asset's issuer through the store's code -> issuer index, which a
+// background writer fills some time AFTER the block with the create tx became stable (BeansDB.After / afterBlock).
+// Until then every transfer of the asset fails with "asset does not exist".  The scenario waits for the writer,
+// so that the outcome of the next block does not depend on its progress (and counts how often it had to).
+func (s *c12s) waitIndex() {
+	lag := false
+	for _, as := range s.assets {
+		if !as.created {
+			continue
+		}
+		for i := 0; ; i++ {
+			a, err := s.n.DB.GetAssetCode(s.hashes[as.code])
+			if err == nil && a != (common.Address{}) {
+				break
+			}
+			lag = true
+			if i > 20000 {
+				panic("c12: asset code index never written")
+			}
+			time.Sleep(time.Millisecond)
+		}
+	}
+	if lag {
+		s.c.Count("store:asset-code-index-lagged-behind-stable-block")
+	}
+}
+
 func (s *c12s) confirmer(miner common.Address) *ecdsa.PrivateKey {
 	for _, dk := range s.w.DeputyKeys {
 		if keyAddr(dk) != miner {
@@ -488,28 +517,38 @@ func (s *c12s) runBlock(cands []*c12Tx) []string {
 			}
 			switch x.kind {
 			case "create":
-				for _, as := range s.assets {
-					if as.code == x.h {
-						as.created = true
-						if as.cat == types.TokenAsset {
-							s.native[as.code] = as.code
+				if as := s.asset(x.h); as != nil {
+					as.created = true
+					if as.cat == types.TokenAsset {
+						s.native[as.code] = as.code
+						if s.taintID[as.code] {
+							s.taint[as.code] = true
 						}
 					}
 				}
 			case "issue":
-				for _, as := range s.assets {
-					if as.code == x.h && as.cat != types.TokenAsset {
-						if _, ok := s.native[x.h2]; !ok {
-							s.native[x.h2] = as.code
-						}
-						s.ids = append(s.ids, x.h2)
+				if as := s.asset(x.h); as != nil {
+					id := s.issueID(x)
+					if _, ok := s.native[id]; !ok {
+						s.native[id] = as.code
 					}
-					if as.code == x.h && as.cat == types.TokenAsset {
-						s.ids = append(s.ids, as.code)
+					if s.taintID[id] {
+						s.taint[as.code] = true
 					}
+					s.ids = append(s.ids, id)
+				}
+			case "replenish":
+				if nc, ok := s.native[x.h2]; !ok || nc != x.h {
+					s.taint[x.h] = true
+					s.taintID[x.h2] = true
+					if ok {
+						s.taint[nc] = true
+					}
+					c.Count("oracle:replenish-under-foreign-or-free-id")
 				}
 			}
 		}
+		s.waitIndex()
 		v := s.view(b.Hash())
 		s.oracles(b, cands, included, v)
 		s.prev = v
@@ -540,6 +579,23 @@ func (s *c12s) runBlock(cands []*c12Tx) []string {
 
 // ---- direct oracles --------------------------------------------------------------------------
 
+func (s *c12s) asset(code int) *c12Asset {
+	for _, as := range s.assets {
+		if as.code == code {
+			return as
+		}
+	}
+	return nil
+}
+
+// issueID: the asset id an issue tx writes to (the code for a token asset, the tx hash otherwise)
+func (s *c12s) issueID(x *c12Tx) int {
+	if as := s.asset(x.h); as != nil && as.cat == types.TokenAsset {
+		return x.h
+	}
+	return x.h2
+}
+
 func (s *c12s) oracles(b *types.Block, cands []*c12Tx, included map[int]bool, v *c12View) {
 	c := s.c
 	p := s.prev
@@ -548,25 +604,12 @@ func (s *c12s) oracles(b *types.Block, cands []*c12Tx, included map[int]bool, v 
 	}
 	negTransferTo := map[[2]int]bool{} // (receiver, id) of included transfers with a negative amount
 	negBurn := map[int]bool{}          // id of included negative-amount transfers to the burn address
-	sentBy := map[[2]int]bool{}        // (sender, id) of included transfers
-	issuedTo := map[[2]int]bool{}      // (receiver, id) overwritten by an included issue
+	sentMax := map[[2]int]*big.Int{}   // (sender, id) -> upper bound of what the included transfers of the sender may take
+	sentAll := map[[2]int]bool{}       // (sender, id) sent a non-divisible asset: the whole entry may go
+	issuedTo := map[[2]int]bool{}      // (receiver, id) written by an included issue
 	modified := map[int]bool{}
 	issuedAmt := map[int]*big.Int{} // code -> sum of amounts the issuer issued / replenished in this block
 	burnBy := map[int]bool{}
-	foreign := false
-	for k, e := range v.eq {
-		if nc, ok := s.native[k[1]]; ok && nc != e.code {
-			foreign = true
-		}
-		if _, ok := s.native[k[1]]; !ok {
-			foreign = true // an id that no issue ever produced (replenish with a free id)
-		}
-	}
-	for k, e := range p.eq {
-		if nc, ok := s.native[k[1]]; ok && nc != e.code {
-			foreign = true
-		}
-	}
 	for i, x := range cands {
 		if !included[i] {
 			continue
@@ -576,7 +619,16 @@ func (s *c12s) oracles(b *types.Block, cands []*c12Tx, included map[int]bool, v 
 			if s.codeKind[x.to] == 2 {
 				continue // execution reverted
 			}
-			sentBy[[2]int{x.from, x.h}] = true
+			k := [2]int{x.from, x.h}
+			if sentMax[k] == nil {
+				sentMax[k] = new(big.Int)
+			}
+			if pe, ok := p.eq[k]; ok && !p.div[pe.code] {
+				sentAll[k] = true
+			}
+			if x.amt != nil && x.amt.Sign() > 0 && x.to != x.from {
+				sentMax[k].Add(sentMax[k], x.amt)
+			}
 			if x.amt != nil && x.amt.Sign() < 0 {
 				negTransferTo[[2]int{x.to, x.h}] = true
 				if x.to == 0 {
@@ -584,16 +636,16 @@ func (s *c12s) oracles(b *types.Block, cands []*c12Tx, included map[int]bool, v 
 				}
 			}
 			if x.to == 0 {
-				if e, ok := p.eq[[2]int{x.from, x.h}]; ok {
+				if e, ok := p.eq[k]; ok {
 					burnBy[e.code] = true
 				}
-				if e, ok := v.eq[[2]int{x.from, x.h}]; ok {
+				if e, ok := v.eq[k]; ok {
 					burnBy[e.code] = true
 				}
 			}
 		case "issue", "replenish":
 			if x.kind == "issue" {
-				issuedTo[[2]int{x.to, x.h2}] = true
+				issuedTo[[2]int{x.to, s.issueID(x)}] = true
 			}
 			if issuedAmt[x.h] == nil {
 				issuedAmt[x.h] = new(big.Int)
@@ -616,19 +668,20 @@ func (s *c12s) oracles(b *types.Block, cands []*c12Tx, included map[int]bool, v 
 			c.Fail("c12/negative-equity", fmt.Sprintf("block %d: equity %d:%d is %s", b.Height(), k[0], k[1], e.amt.String()), nil)
 		}
 	}
-	// supply = sum (divisible assets); report the block that breaks it
+	c.Count("oracle:no-negative:checked")
+	// supply = sum (divisible assets); report the block that breaks it (or changes the gap)
 	for code, sup := range v.supply {
 		if !v.div[code] {
 			continue
 		}
 		sum := v.sumOf(code)
 		if sum.Cmp(sup) != 0 {
-			if ps, ok := p.supply[code]; ok && p.sumOf(code).Cmp(ps) != 0 && new(big.Int).Sub(sum, sup).Cmp(new(big.Int).Sub(p.sumOf(code), ps)) == 0 {
+			if ps, ok := p.supply[code]; ok && new(big.Int).Sub(sum, sup).Cmp(new(big.Int).Sub(p.sumOf(code), ps)) == 0 {
 				c.Count("oracle:supply-not-sum:inherited")
 				continue
 			}
 			class := "other"
-			if foreign {
+			if s.taint[code] {
 				class = "foreign-asset-id"
 			}
 			c.Fail("c12/supply-not-sum/"+class, fmt.Sprintf("block %d: asset c%d records supply %s but its holders own %s", b.Height(), code, sup.String(), sum.String()), nil)
@@ -636,20 +689,25 @@ func (s *c12s) oracles(b *types.Block, cands []*c12Tx, included map[int]bool, v 
 			c.Count("oracle:supply-eq-sum:ok")
 		}
 	}
-	// nobody but the sender of a transfer loses equity
+	// nobody loses more than what the transfers he sent in this block take
 	for k, pe := range p.eq {
 		ne, ok := v.eq[k]
-		lost := !ok || ne.amt.Cmp(pe.amt) < 0 || (ne.code != pe.code)
-		if !lost {
+		if ok && ne.code == pe.code && ne.amt.Cmp(pe.amt) >= 0 {
 			continue
 		}
-		if sentBy[k] && ok && ne.code == pe.code {
+		if ok && ne.code == pe.code && sentAll[k] {
+			continue
+		}
+		if ok && ne.code == pe.code && sentMax[k] != nil && new(big.Int).Sub(pe.amt, ne.amt).Cmp(sentMax[k]) <= 0 {
+			c.Count("oracle:debit-explained-by-own-transfers")
 			continue
 		}
 		class := "other"
 		switch {
 		case negTransferTo[k]:
 			class = "negative-amount"
+		case issuedTo[k] && (s.taint[pe.code] || s.taintID[k[1]]):
+			class = "foreign-asset-id"
 		case issuedTo[k]:
 			class = "issue-overwrites-entry"
 		}
@@ -657,7 +715,11 @@ func (s *c12s) oracles(b *types.Block, cands []*c12Tx, included map[int]bool, v 
 		if ok {
 			after = fmt.Sprintf("c%d,%s", ne.code, ne.amt.String())
 		}
-		c.Fail("c12/third-party-debited/"+class, fmt.Sprintf("block %d: equity %d:%d was c%d,%s and is %s although account %d sent no transfer of id %d in this block", b.Height(), k[0], k[1], pe.code, pe.amt.String(), after, k[0], k[1]), nil)
+		sent := "0"
+		if sentMax[k] != nil {
+			sent = sentMax[k].String()
+		}
+		c.Fail("c12/third-party-debited/"+class, fmt.Sprintf("block %d: equity %d:%d was c%d,%s and is %s although the transfers account %d sent of id %d in this block take at most %s", b.Height(), k[0], k[1], pe.code, pe.amt.String(), after, k[0], k[1], sent), nil)
 	}
 	// frozen throughout the block => nothing moves
 	for code, fz := range p.frozen {
@@ -686,7 +748,7 @@ func (s *c12s) oracles(b *types.Block, cands []*c12Tx, included map[int]bool, v 
 			c.Count("oracle:frozen-unmoved:ok")
 		}
 	}
-	// growth only by the issuer
+	// growth only by the issuer; shrinking only by a burn
 	for code, sup := range v.supply {
 		ps, ok := p.supply[code]
 		if !ok {
@@ -698,31 +760,30 @@ func (s *c12s) oracles(b *types.Block, cands []*c12Tx, included map[int]bool, v 
 		if allowed == nil {
 			allowed = new(big.Int)
 		}
-		class := ""
+		what, by := "", dSup
 		switch {
 		case v.div[code] && dSup.Cmp(allowed) > 0:
-			class = "supply"
+			what = "supply"
 		case v.div[code] && dSum.Cmp(allowed) > 0:
-			class = "holdings"
+			what, by = "holdings", dSum
 		case !v.div[code] && dSup.Sign() > 0 && issuedAmt[code] == nil:
-			class = "supply"
+			what = "supply"
 		}
-		if class != "" {
+		if what != "" {
 			cause := "other"
 			for id := range negBurn {
-				if e, ok := p.eq[[2]int{0, id}]; ok && e.code == code {
-					cause = "negative-amount-burn"
-				}
 				for k, e := range p.eq {
 					if k[1] == id && e.code == code {
 						cause = "negative-amount-burn"
 					}
 				}
 			}
-			if cause == "other" && foreign {
+			if cause == "other" && s.taint[code] {
 				cause = "foreign-asset-id"
 			}
-			c.Fail("c12/minted-by-non-issuer/"+cause, fmt.Sprintf("block %d: asset c%d: %s grew by %s (supply %s, holdings %s) but its issuer issued / replenished only %s in this block", b.Height(), code, class, map[string]*big.Int{"supply": dSup, "holdings": dSum}[class].String(), dSup.String(), dSum.String(), allowed.String()), nil)
+			c.Fail("c12/minted-by-non-issuer/"+cause, fmt.Sprintf("block %d: asset c%d: %s grew by %s (supply %s, holdings %s) but its issuer issued / replenished only %s in this block", b.Height(), code, what, by.String(), dSup.String(), dSum.String(), allowed.String()), nil)
+		} else {
+			c.Count("oracle:growth-by-issuer-only:ok")
 		}
 		if dSup.Sign() < 0 && !burnBy[code] {
 			c.Fail("c12/supply-reduced-without-burn", fmt.Sprintf("block %d: supply of c%d fell by %s without a transfer to the burn address", b.Height(), code, dSup.String()), nil)
@@ -737,7 +798,7 @@ func c12(c *Ctx) {
 	w := NewWorld(3, now-600000, 10000)
 	n := w.NewNode(3)
 	defer n.Close()
-	s := &c12s{c: c, w: w, n: n, addrLabel: map[common.Address]int{}, hashLabel: map[common.Hash]int{}, codeKind: map[int]int{}, native: map[int]int{}}
+	s := &c12s{c: c, w: w, n: n, addrLabel: map[common.Address]int{}, hashLabel: map[common.Hash]int{}, codeKind: map[int]int{}, native: map[int]int{}, taint: map[int]bool{}, taintID: map[int]bool{}}
 	s.hl(common.Hash{})
 	// address labels: 0 = burn address, 1..nUsers = users, then two contracts
 	s.nUsers = 6
